@@ -109,7 +109,31 @@ def check(drv, cases):
     return None, nt
 
 
+def below_sp(path, reg, allowed):
+    """Memory operands below the stack pointer in a file's text: the i386 ABI has no red zone (a signal or interrupt frame may be
+    written there at any instruction boundary); x86-64 System V allows 128 bytes in leaf functions."""
+    import re
+    worst = None
+    for ln, line in enumerate(open(path, errors="replace"), 1):
+        for m in re.finditer(r"-(\d+|0x[0-9a-fA-F]+)\(%" + reg + r"[,)]", line):
+            n = int(m.group(1), 0)
+            if n > allowed and (worst is None or n > worst[1]):
+                worst = (ln, n, line.strip())
+    return worst
+
+
 def run(ev, tier, seen, record):
+    w = below_sp(os.path.join(REPO, FILE), "esp", 0)
+    ev.evaluations += 1
+    if w:
+        record(ev, "i386:below-sp", {"kind": "i386-text", "file": FILE, "line": w[0]}, "%s line %d: `%s` accesses memory %d bytes below the stack pointer; the i386 ABI has no red zone" % (FILE, w[0], w[2], w[1]), seen)
+    for f64 in ("src/core/ascon-asm-x86-64.S", "src/masking/ascon-word-asm-x86-64.S", "src/masking/ascon-x2-asm-x86-64.S", "src/masking/ascon-x3-asm-x86-64.S", "src/masking/ascon-x4-asm-x86-64.S"):
+        p64 = os.path.join(REPO, f64)
+        if os.path.exists(p64):
+            w = below_sp(p64, "rsp", 128)
+            ev.evaluations += 1
+            if w:
+                record(ev, "x86-64:below-red-zone:" + f64, {"kind": "i386-text", "file": f64, "line": w[0]}, "%s line %d: `%s` accesses memory %d bytes below the stack pointer, beyond the 128-byte red zone" % (f64, w[0], w[2], w[1]), seen)
     drv, err = build_driver()
     if drv is None:
         record(ev, "i386:assemble", {"kind": "i386", "file": FILE, "log": err}, err.splitlines()[0], seen)
@@ -132,6 +156,14 @@ def run(ev, tier, seen, record):
 
 
 def replay(path, obj):
+    if obj.get("kind") == "i386-text":
+        w = below_sp(os.path.join(REPO, obj["file"]), "esp" if "i386" in obj["file"] else "rsp", 0 if "i386" in obj["file"] else 128)
+        if w:
+            print("line %d: %s" % (w[0], w[2]))
+            print("VIOLATION property=%s replay=%s" % (PROP, path))
+            return 1
+        print("REPLAY-PASS")
+        return 0
     if obj.get("kind") != "i386":
         return None
     drv, err = build_driver()
